@@ -239,7 +239,7 @@ class C17(Prop):
                 fails.append({'signature': 'request-after-reconnect-not-served:' + c['cause'], 'what': '%s: a request issued afterwards was not served' % ctx})
             if r['keepalives_in_2_periods'] < 1:
                 fails.append({'signature': 'keepalives-not-restarted:' + c['cause'], 'what': '%s: no KEEPALIVE within two periods on the new connection' % ctx})
-        # known finding F19: once a reconnect has been requested from inside on_close, the clean-up of that earlier connection
+        # former known finding F19 (repaired by /repo 5534e40, listed under `fixed:`; nothing is suppressed any more): once a reconnect has been requested from inside on_close, the clean-up of that earlier connection
         # (_on_connection_closed -> _stop_tasks, still unwinding) can reset / cancel the tasks of a *later* connection. Failures in rounds
         # that come after such a round get their own signatures, so that the same symptoms in any other history are still reported.
         out = []
